@@ -10,13 +10,16 @@ package c22_test
 // optionally the blocking condition is lifted at a generated time. The oracle
 // is computed from the plan alone (reference end time E and legal codes) and
 // compared with the client's event log and the handler's context record.
+//
+// Further blocking points that involve retries (the RPC is waiting in the retry
+// backoff, or blocked in a second or later attempt, when its end time comes)
+// are in c22_retry_test.go.
 
 import (
 	"context"
 	"fmt"
 	"io"
 	"net"
-	"os"
 	"strings"
 	"sync"
 	"testing"
@@ -31,7 +34,7 @@ import (
 )
 
 type plan struct {
-	Point        string `json:"point"` // pick | quota | flow | recv | handler
+	Point        string `json:"point"` // pick | quota | flow | recv | handler | retry_backoff | retry_attempt | retry_over
 	WaitForReady bool   `json:"wfr"`
 	MaxStreams   int    `json:"max_streams"` // quota point: server limit (= number of filler RPCs)
 	MsgBytes     int    `json:"msg_bytes"`   // flow point: message size
@@ -78,8 +81,8 @@ func genDur(rt *rapid.T, label string, max int64) int64 {
 
 func genPlan(rt *rapid.T) plan {
 	p := plan{D: -1, SC: -1, C: -1, U: -1}
-	p.Point = rapid.SampledFrom([]string{"retry_backoff", "retry_backoff", "retry_backoff", "retry_attempt", "retry_attempt",
-		"pick", "pick", "quota", "quota", "flow", "flow", "recv", "handler", "retry_over"}).Draw(rt, "point")
+	p.Point = rapid.SampledFrom([]string{"retry_backoff", "pick", "quota", "flow", "retry_attempt", "retry_backoff", "pick", "quota", "flow",
+		"retry_attempt", "recv", "handler", "retry_over"}).Draw(rt, "point")
 	p.WaitForReady = rapid.IntRange(0, 2).Draw(rt, "wfr") == 0
 	p.MaxStreams = rapid.IntRange(1, 2).Draw(rt, "max_streams")
 	p.MsgBytes = rapid.SampledFrom([]int{1 << 10, 16 << 10, 60 << 10, 100 << 10}).Draw(rt, "msg_bytes")
@@ -261,9 +264,6 @@ func runInBubble(p plan) (res vk.Result) {
 		rm = retryModel(p.Retry)
 		phE = phaseAt(rm, E)
 		if phE.kind == "ambiguous" {
-			if os.Getenv("C22_DEBUG_DISCARD") != "" {
-				return vk.Bad("DEBUG discard: phase %+v model %+v", phE, rm)
-			}
 			return vk.Result{Discard: true} // E within the jitter uncertainty (shrunk / hand-written plans only)
 		}
 		installScript(hs, p.Retry, stopScripts)
@@ -626,7 +626,7 @@ func runInBubble(p plan) (res vk.Result) {
 func TestVerifC22Deadline(t *testing.T) {
 	vk.Check(t, vk.Unit[plan]{
 		ID: "C22", Name: "deadline",
-		Rule: "one RPC per case driven to a blocking point in {pick (dialer gated, fail-fast or wait-for-ready through connect timeouts/backoff), stream quota (MaxConcurrentStreams 1-2 exhausted by fillers), flow control (handler does not read; fixed 64KiB windows), RecvMsg, unary Invoke}; ended by ctx deadline / service-config timeout / cancel at generated ns-exact virtual times (0..3 days; values around the 8-digit grpc-timeout unit changes; cancel within 2ns of the deadline), optional unblocking before/at/after the end. non-trivial = blocked in pick, stream-quota wait or SendMsg one nanosecond before the end time",
+		Rule: "one RPC per case driven to a blocking point in {pick (dialer gated, fail-fast or wait-for-ready through connect timeouts/backoff), stream quota (MaxConcurrentStreams 1-2 exhausted by fillers), flow control (handler does not read; fixed 64KiB windows), RecvMsg, unary Invoke}; ended by ctx deadline / service-config timeout / cancel at generated ns-exact virtual times (0..3 days; values around the 8-digit grpc-timeout unit changes; cancel within 2ns of the deadline), optional unblocking before/at/after the end; retry points (retry policy maxAttempts 2-5, 1-3 retryable codes, initial/max backoff 1ns..10h, multiplier 0.5-10, optional retryThrottling; the server's handlers follow a per-attempt script: trailers-only failure with optional grpc-retry-pushback-ms 0/small/large/saturating, failure after headers, park, headers then park; unary Invoke or NewStream+Send+Recv): the end time is placed by an interval model of the gRFC A6 retry state machine strictly inside the backoff wait after attempt k for every jitter value (retry_backoff), or while attempt k (mostly >= 2) is parked or would fail only later (retry_attempt; rarely tying with the attempt's start), or after an attempt legitimately ended the RPC (retry_over: non-retryable code, committed, pushback abort, throttled, attempts exhausted - only the handler-context clauses are asserted). non-trivial = blocked in pick, stream-quota wait or SendMsg one nanosecond before the end time, or in the retry backoff at the end time (class blocked_in_retry_backoff_at_E), or in a second or later attempt at the end time (class deadline_during_later_attempt)",
 		Gen:  genPlan, Run: run,
 	})
 }
